@@ -117,7 +117,7 @@ let judge_wrap id wc (arg : disj list) (out : disj list) =
     match timed (fun () ->
       List.for_all (fun d ->
         if in_disj d (pt_of pl) then (not (rden_b (model wc d.dc false) q)) && rden_b (model wc d.dc true) q else true) arg) with
-    | Some true -> "asis-model-loses-it"
+    | Some true -> "pre-fix-model-loses-it"     (* the behaviour of wrap_assign.hh before the fix of the collective path *)
     | Some false -> "model-keeps-it"
     | None -> "no-model" in
   List.iter (fun pl ->
@@ -161,14 +161,10 @@ let judge_wrap id wc (arg : disj list) (out : disj list) =
           let u = model wc' (List.hd arg).dc patched in
           let os = sys_of_cons o.dc in
           List.for_all (fun s -> incl_sys (nat (wc.dim + 1)) s os = Some true) u, List.length u in
-        (match timed (fun () -> match included false with
-                                | (true, n) -> (true, n)
-                                | (false, _) ->
-                                    (* a library in which the defect of the collective path is fixed follows the patched model *)
-                                    (match included true with (true, n) -> bump stats "model_patched_included"; (true, n) | r -> r)) with
+        (* the code as it is is the model with [patched = true] *)
+        (match timed (fun () -> included true) with
          | Some (true, n) -> bump stats "model_included"; bumpn stats "model_disjuncts" n
          | Some (false, _) ->
-             (* legitimate only for the known defect (the as-is model then loses points itself, never the reverse) *)
              Printf.printf "BROKEN %s model-not-included | the generic model's result is not included in the library's result\n" id
          | None -> bump stats "undecided"; Printf.printf "UNDECIDED %s model-inclusion\n" id)
     | _ -> ()
